@@ -108,6 +108,9 @@ var Snippets = []Snippet{
 	{[]string{"A"}, "func sel${N}() int {\n\treturn ${A}Obj.X + ${A}Obj.M()\n}"},
 	{[]string{"A"}, "var mexp${N} = ${A}T.M"},
 	{[]string{"D"}, "func dsel${N}() int {\n\tf := ${D}DotT.DM\n\treturn ${D}DotObj.A + ${D}DotObj.DM() + f(${D}DotObj)\n}"},
+	{[]string{"A", "B"}, "func st${N}() {\n\t_ = ${A}F(${A}V)\n\t_ = ${B}F2()\n\t_ = ${A}T{X: ${A}C}\n}"},
+	{[]string{"C", "E"}, "func st${N}() {\n\t_ = ${C}Do(${C}One)\n\t${E}Bar()\n}"},
+	{[]string{"D", "F"}, "func st${N}() {\n\t_ = ${D}DotObj.A\n\t_ = ${F}Baz() + ${D}DotF()\n}"},
 	{[]string{"A"}, "func shadow${N}() int {\n\tV := struct{ F int }{F: 1}\n\treturn V.F + ${A}C\n}"},
 }
 
